@@ -182,3 +182,36 @@ def prefixesOf (table : List (String × String × List String)) (f : String) : L
   (table.filter (fun r => r.2.1 == f)).flatMap (fun r => r.2.2)
 
 end Poly.Model.Gov
+
+namespace Poly.Model.Gov
+
+/-- What a transaction contributes to the approval history of ledger key `k` in state `s`: if it is a committed
+approval on `k`, the approver with the consensus addresses in force, and whether the action was applied. -/
+def approvalEvent (H : Bytes → Bytes) (k : Bytes) (s : State) (op : Op) : Option ((Addr × List Addr) × Bool) :=
+  match plan H s op with
+  | .ok (.approve ap) =>
+    if ledgerKey H ap.method ap.input = k then
+      match checkConsensusSigns H s ap.method ap.input ap.addr, curPool s with
+      | .ok (s1, f, _), some (_, pool) =>
+        match consAddrs s pool with
+        | some cons => if f && !(ap.onFire s1).toBool then none else some ((ap.addr, cons), f)
+        | none => none
+      | _, _ => none
+    else none
+  | _ => none
+
+/-- The committed approvals on ledger key `k` along a history, and whether each applied its action. -/
+def approvalsOn (H : Bytes → Bytes) (k : Bytes) : State → List Op → List ((Addr × List Addr) × Bool)
+  | _, [] => []
+  | s, op :: rest =>
+    match approvalEvent H k s op with
+    | some e => e :: approvalsOn H k (step H s op) rest
+    | none => approvalsOn H k (step H s op) rest
+
+/-- Along the history no request whose approvals are collected under `k` is withdrawn or replaced. -/
+def NoClearOn (H : Bytes → Bytes) (k : Bytes) : State → List Op → Prop
+  | _, [] => True
+  | s, op :: rest =>
+    (∀ o, plan H s op = .ok (.done o) → ledgerKeyOf H s op ≠ some k) ∧ NoClearOn H k (step H s op) rest
+
+end Poly.Model.Gov
